@@ -63,7 +63,7 @@ RULE = ("every function term of a 22-term set (add/subtract/multiply/divide/join
         "lists, nested functions, an unknown function) under 7 prior substitutions, against 20 other operands (atoms, "
         "numbers, bound/unbound variables, $_, complex terms, lists) on either side, and against each other. The value V of "
         "F is read off the implementation itself ($W = F); relation checked on the implementation: F = T has the same "
-        "outcome as V = T and T = F the same as T = V. Non-trivial = the function evaluates and the unification succeeds.")
+        "outcome as V = T and T = F the same as T = V; two function terms unify exactly when their values are the same constant. Non-trivial = the function evaluates and the unification succeeds.")
 
 def nontrivial(case, tag, result):
     return tag in ("fn-left", "fn-right", "fn-fn") and "some" in result
@@ -85,7 +85,29 @@ def relations(cases, impl):
         e = pr[1]
         if len(e) > 9 and e[9] is not None: return ("value", obs.to_text(e[9]))
         return ("novalue", "unbound")
+    REL_STATS["function_vs_function_pairs_compared"] = 0
+    import struct
+    def num(t):
+        p = parse(t)
+        if p[0] == "f": return struct.unpack("<d", struct.pack("<Q", int(p[1][1:], 16)))[0]
+        return None
     for (case, tag), (out, res) in zip(cases, impl):
+        if tag == "fn-fn":
+            # two function terms: the outcome of unifying their VALUES (two constants: the same constant or not)
+            prior, (a, b) = _last(case)
+            ptxt = [obs.to_text(p) for p in prior]
+            va, vb = value_of(ptxt, obs.to_text(a)), value_of(ptxt, obs.to_text(b))
+            if va is None or vb is None or va[0] != "value" or vb[0] != "value": continue
+            if parse(va[1])[0] not in "aif" or parse(vb[1])[0] not in "aif": continue
+            fa, fb = num(va[1]), num(vb[1])
+            same = (fa == fb) if (fa is not None and fb is not None) else (va[1] == vb[1])
+            REL_STATS["function_vs_function_pairs_compared"] += 1
+            pr = obs.parse_result(res)
+            pres = res_of.get("(useq (ss) %s)" % " ".join(ptxt)) if ptxt else "(ok (some (ss)))"
+            if (pr[0] == "some") != same or (same and pres is not None and res != pres):
+                yield dict(case=case, tag=tag, why="two function terms with the values %s and %s: unification must %s" % (va[1], vb[1], "succeed and bind nothing" if same else "fail"),
+                           implementation=dict(result=res))
+            continue
         if tag not in ("fn-left", "fn-right"): continue
         prior, (a, b) = _last(case)
         ptxt = [obs.to_text(p) for p in prior]
